@@ -170,4 +170,6 @@ func (ds *AnySource) VerifRunDoneState(timeout time.Duration) (idle bool, done i
 func (s *SourceControl) VerifActiveSource() DataSource { return s.ActiveSource }
 
 // VerifStatusLengths returns the record lengths the RPC layer would hand to the next Start.
-func (s *SourceControl) VerifStatusLengths() (npre, nsamp int) { return s.status.Npresamp, s.status.Nsamples }
+func (s *SourceControl) VerifStatusLengths() (npre, nsamp int) {
+	return s.status.Npresamp, s.status.Nsamples
+}
